@@ -472,4 +472,6 @@ def run(P, R, tier):
     m = matcher(P, R)
     field_exhaustive(P, R, H, m)
     wiring(P, R, H)
+    # the OK mask covers every slot a rule can name
+    rules.narrowing_fields(P, R, 'C11.WID.1', ('modules/iauth_core.c', 'modules/iauth_xquery.c', 'modules/iauth_class.c'))
     return EXPLANATION, ASSUMPTIONS
